@@ -33,7 +33,10 @@ def main():
         what = str(meta.get('summary') or meta.get('what') or meta.get('description') or '')[:170].replace('|', '/').replace('\n', ' ')
         prop = meta.get('breaks') or sid.split('-')[0]
         r = now.get(sid)
-        if r is None:
+        if meta.get('neutralised'):
+            r = None
+            cur = 'neutralised by a later repair (see meta.json)'
+        elif r is None:
             cur = 'not swept'
         elif r['rc'] == 1:
             cur = 'CAUGHT (%d violations)' % r['n']
@@ -44,6 +47,9 @@ def main():
         else:
             cur = 'machinery failure (rc=%d)' % r['rc']
         wave = 'unfix' if '-unfix-' in sid else 'own' if sid.startswith('own') else 'r4' if '-r4m' in sid else 'r3' if '-r3m' in sid else 'r2' if '-r2m' in sid else 'r1'
+        if meta.get('neutralised'):
+            rows.append('| %s | %s | %s | %s | %s | %s |' % (sid, what, prop, first.get(sid, '-'), cur, ''))
+            continue
         st = stats.setdefault(wave, [0, 0, 0])
         st[0] += 1
         st[1] += 1 if str(first.get(sid, '')).startswith('CAUGHT') else 0
